@@ -228,8 +228,22 @@ DISTINCT_RULE = "one case = one cbor_load execution on an exactly-sized heap cop
 def C01(run):
     q = run.quick()
     def plans(L):
-        return [["dfs", "3" if q else "5"], ["--dedup", "bytes", "2"], ["rand", "1200" if q else "20000"]]
+        return [["dfs", "3" if q else "5"], ["--dedup", "bytes", "2"], ["rand", "1200" if q else "20000"],
+                ["--faults", "10", "rand", "120" if q else "2500"]]
     mcs, tot, samples = _load_check(run, "C01", plans, what="decode-anything pipeline", mc_cfgs=("MC_Decoder_L2", "MC_Decoder_live"))
+    # nesting far beyond any limit, and the nesting families around the limit: outcome shape, follow-up operations, sanitizers, watchdog only
+    lib = build_lib(run, "dbg")
+    exe = build_harness(run, lib, "h_load", LOAD_SRC)
+    deep_out = run.path("deep.ndjson")
+    open(deep_out, "w").close()
+    for args in (["--lean", "deep", "100000" if q else "3000000"], ["--lean", "nest"]):
+        st = _record_loads(run, exe, args, deep_out, "deeply nested input")
+        tot["executed"] += st["executed"]
+        tot["shape_failures"] += st["shape_failures"]
+    for l in open(deep_out):
+        if '"shapefail"' in l:
+            b = bytes(json.loads(l)["in"][:64])
+            report_violation(run, "deep-shape " + b.hex(), "deeply nested input: outcome is neither (item, NONE) nor (NULL, error), or something leaked: %s..." % b.hex(), {"input_prefix_hex": b.hex()})
     extra = {}
     if not q:
         extra = _c01_sweeps(run)
@@ -277,7 +291,9 @@ def C05(run):
     def plans(L):
         return [["--noops", "dfs", "4" if q else "6"], ["--noops", "rand", "2000" if q else "30000"], ["--noops", "--dedup", "bytes", "2"],
                 ["--noops", "--faults", "24", "rand", "250" if q else "4000"], ["--noops", "--faults", "12", "dfs", "3"]]
-    mcs, tot, samples = _load_check(run, "C05", plans, what="cbor_load failure report", mc_cfgs=("MC_Decoder_L1", "MC_Decoder_L2", "MC_Decoder_L3"))
+    # the default build and one with a small nesting limit, so that "at the limit" is inside the enumerated space
+    mcs, tot, samples = _load_check(run, "C05", lambda L: plans(L) if L is None else [["--noops", "dfs", "4" if q else "5"], ["--noops", "nest"]], Ls=(None, 3),
+                                    what="cbor_load failure report", mc_cfgs=("MC_Decoder_L1", "MC_Decoder_L2", "MC_Decoder_L3"))
     _load_evidence(run, mcs, tot, samples, DISTINCT_RULE + "inputs as C02 (every proper prefix of every enumerated item is in the token enumeration; truncations and corruptions from the random single-edit neighbours); result struct pre-filled with 0xAB; plus, for a subset, every single refused allocation request k = 0..min(N,24)-1 of the load (MEMERROR just past the head whose allocation was refused, nothing left allocated)", LOAD_ASSUME)
 
 
